@@ -55,7 +55,7 @@ func generate(role string, thorough bool, only map[string]bool, emit func(job)) 
 			cfgs := []cfg{{1, 1, both}, {2, 1, both}, {3, 1, both}, {1, 2, both}, {2, 2, both}, {3, 2, both},
 				{1, 3, both}, {2, 3, both}, {3, 3, both}, {1, 4, both}, {2, 4, []int{0}}}
 			if thorough {
-				cfgs = append(cfgs, cfg{2, 4, []int{1}}, cfg{1, 5, both}, cfg{3, 4, both}, cfg{2, 5, both})
+				cfgs = append(cfgs, cfg{2, 4, []int{1}}, cfg{1, 5, both}, cfg{3, 4, both}, cfg{2, 5, []int{0}})
 			}
 			for _, c := range cfgs {
 				for _, lead := range c.leads {
@@ -105,6 +105,9 @@ func generate(role string, thorough bool, only map[string]bool, emit func(job)) 
 				}
 				for W := uint32(1); W <= 2; W++ {
 					for si := 0; si < 4; si++ {
+						if W == 2 && si%3 != 0 {
+							continue
+						}
 						multiPair("A3", W, []Pair{AllPairs[2*si], AllPairs[2*si+1]}, 3, 1, 0, si%2 == 0, plain)
 					}
 				}
@@ -186,12 +189,14 @@ func generate(role string, thorough bool, only map[string]bool, emit func(job)) 
 		// Stop+reopen at every backend call position, both batch-cut parities.
 		if wants(only, "A6") {
 			scopes := []int{0}
-			modes := []string{"restart"}
 			if thorough {
 				scopes = []int{0, 1, 2, 3}
-				modes = []string{"restart", "retry", "lock"}
 			}
 			asymBases("A6", scopes, func(si int) bool { return si%2 == 1 }, func(int) []int { return []int{0, 1} }, func(sc *Scenario) {
+				modes := []string{"restart"}
+				if thorough && sc.Pairs[0].Purpose == 84 {
+					modes = []string{"restart", "retry"}
+				}
 				emit(job{sc: sc, faults: true, modes: modes, local: true})
 			})
 		}
